@@ -101,6 +101,14 @@ needs a validator entry for the creator -/
 def admitOraclePrice (st : AuthState) (r : Request) : Bool :=
   r.sig == .valid && st.isValidator r.arg0
 
+/-- A create-price transaction with several creators (GetSigners = the creators of its messages, without
+repeats): one request per signer — `arg0` the creator, `sig` the status of the SignerInfo / signature slot
+of that signer. app/ante/cosmos/sigverify.go, oracle branches: SetPubKeyDecorator loops over all public
+keys, SigVerificationDecorator runs `for i, sig := range sigs` over ALL signatures (an error return
+inside the loop for a slot that does not verify, `next` only after the loop), IncrementSequenceDecorator
+loops over all messages: the transaction passes iff every signer's pair passes. -/
+def admitOraclePriceTx (st : AuthState) (rs : List Request) : Bool := rs.all (admitOraclePrice st)
+
 /-- UpdateParams: GetSigners = [msg.Authority] (standard signature check for that account), handler:
 `utils.IsMainnet(chainID) && k.authority != msg.Authority` rejects -/
 def admitUpdateParams (st : AuthState) (r : Request) : Bool :=
